@@ -103,4 +103,21 @@ var targets = []Target{
 			"TypeDescriptor.IsList", "TypeDescriptor.WireType"},
 		Tables: []string{"Kind2Wire"},
 	},
+	{
+		// C19: in-place leaf writers of the Thrift binary encoding, and the call sequences / header arithmetic of the message, field,
+		// map, list and set envelopes (the Write* / Read* primitives they call are effects resp. oracle inputs)
+		Module:  "Gen_thriftbin",
+		Dir:     "thrift",
+		Mode:    "abs",
+		Prelude: absSlicePrelude,
+		Consts:  []string{"VERSION_1", "VERSION_MASK"},
+		Funcs: []string{"Type.Valid",
+			"BinaryEncoding.EncodeBool", "BinaryEncoding.EncodeByte", "BinaryEncoding.EncodeInt16", "BinaryEncoding.EncodeInt32",
+			"BinaryEncoding.EncodeInt64", "BinaryEncoding.EncodeDouble", "BinaryEncoding.EncodeString", "BinaryEncoding.EncodeBinary",
+			"BinaryEncoding.EncodeFieldBegin",
+			"BinaryProtocol.WriteMessageBegin", "BinaryProtocol.ReadMessageBegin",
+			"BinaryProtocol.WriteFieldBegin", "BinaryProtocol.WriteFieldStop", "BinaryProtocol.WriteMapBegin", "BinaryProtocol.WriteListBegin",
+			"BinaryProtocol.WriteSetBegin",
+			"BinaryProtocol.ReadFieldBegin", "BinaryProtocol.ReadMapBegin", "BinaryProtocol.ReadListBegin", "BinaryProtocol.ReadSetBegin"},
+	},
 }
